@@ -155,4 +155,13 @@ def emit_sip(w, src, must):
     w("Definition sip_tag_escaped : bool := %s." % ("true" if re.search(r'";tag=\{\}",\s*percent_encode\(tag', ft) else "false"))
     na = src("crates/sip-types/src/uri/name_addr.rs")
     w("Definition sip_display_quoted_escaped : bool := %s." % ("true" if "parse_quoted_string" in na and re.search(r"if matches!\(c, '\"' \| '\\\\'\)", na) else "false"))
+    # header_names! table: print string and the spellings Name::from_bytes accepts (in table order)
+    hn = src("crates/sip-types/src/header/name.rs")
+    rows = re.findall(r'^\s*"([^"]+)",\s+\w+,\s+\[([^\]]+)\],\s+\w+;', hn[hn.index("header_names! {"):], re.M)
+    must(len(rows) >= 40, "header name table")
+    w("Definition sip_header_names : list (list byte * list (list byte)) := [%s]." % ";\n  ".join(
+        "(%s, [%s])" % (blist(pr.encode()), "; ".join(blist(x.encode()) for x in re.findall(r'"([^"]+)"', ps))) for pr, ps in rows))
+    ep = src("crates/sip-core/src/endpoint.rs")
+    w("Definition sip_send_replaces_content_length : bool := %s." % ("true" if len(re.findall(
+        r"headers\.remove\(&Name::CONTENT_LENGTH\);\s*message\s*\.msg\s*\.headers\s*\.insert\(Name::CONTENT_LENGTH, message\.msg\.body\.len\(\)\.to_string\(\)\);", ep)) == 2 else "false"))
     w("")
